@@ -235,6 +235,12 @@ def limit_specs():
         L.append(("rules_1char_%d" % nr, "%option noyywrap\n%%\n" + body +
                   "zz+/y+x { puts(\"LAST\"); return 1; }\n%%\nint main(void) { yylex(); return 0; }\n",
                   ["-w"], ("run", b"zzyyx", "LAST\n")))
+    L.append(("unterminated_percent_action", "%option noyywrap\n%%\na\t%{\n\tputs(\"A\");\n", []))
+    L.append(("unterminated_percent_block", "%option noyywrap\n%%\na ;\n%{\n/* never closed */\nb ;\n", []))
+    L.append(("unterminated_brace_action", "%option noyywrap\n%%\na\t{ puts(\"A\");\nb ;\n", []))
+    L.append(("unterminated_comment_sect2", "%option noyywrap\n%%\na ;\n    /* never closed\nb ;\n", []))
+    L.append(("unterminated_codeblock_sect1", "%{\nint x;\n%%\na ;\n", []))
+    L.append(("unterminated_top", "%top{\nint x;\n%%\na ;\n", []))
     L.append(("empty", "", []))
     L.append(("only_marker", "%%", []))
     L.append(("nul_bytes", "%%\n\x00\x00 ;\n%%\n", []))
@@ -289,6 +295,9 @@ def limits(chk):
             chk.inconc("limit input %s exceeded 150 CPU-seconds" % name)
             continue
         chk.feat1("limit_inputs")
+        if name.startswith("unterminated_") and res.rc == 0 and not v:
+            v = ("accepted-unterminated", "flex exit 0 for a specification that ends inside %s" %
+                 name[len("unterminated_"):].replace("_", " "))
         if func == "ok":
             chk.feat1("limit_accepted_scanner_works")
         elif func is not None:
